@@ -163,6 +163,14 @@ class DryReal:
                 ctx.violation("C13", "dry_changed_files", facts, "`update --dry %s` changed files" % args)
             if [e for e in ra.events if e["kind"] == "hook" or (e["kind"] == "vcs" and e["role"] in fakevcs.MUTATING)]:
                 ctx.violation("C13", "dry_mutated_vcs", facts, "`update --dry` issued a mutating VCS command or ran a hook")
+            if rb_.exit_code != 0 and rb_.changed and any(
+                    m.startswith("No match for pattern") or m.startswith("No patterns matched for file") for _l, _n, m in rb_.logs):
+                # C06 itself (and not the dry/real disagreement of F19): a real run that stops over a pattern or file problem
+                # has written nothing
+                ctx.violation("C06", "failed_update_changed_files", {"pattern": pattern, "legacy": legacy.is_legacy(pattern)},
+                              "`update %s` exited %s over a pattern that does not match, after changing %s" % (
+                                  args, rb_.exit_code, sorted(k for k in rb_.after if rb_.after.get(k) != rb_.before.get(k))[:4]))
+                continue
             if ra.exit_code != 0:
                 ctx.probe("dry_reported_error")
                 # known finding F19: a file whose occurrences already show what the new version renders to
